@@ -490,6 +490,52 @@ theorem vaultsAfter_all {l : Vault → Bool} : ∀ vs : List Vault, (∀ v ∈ v
     rw [hv, ht]
     simp only [if_true]
 
+/-- STRAY COINS on a collection: a direct `CollectFees` from a state whose collector balance was first
+    increased by `x` of asset `a` (coins attached to the message) succeeds exactly when it succeeds without
+    them, leaves the same pending ledgers behind, and every collector balance is the one after the plain
+    collection plus the attached coins: nothing of them reaches a pair or a vault, and they do not change
+    what is collected -/
+theorem collectFees_gift {s c' : St} {sender a x : Nat} {f : FeesFor}
+    (h : collectFees { s with bal := add s.bal a x } sender f = .ok c') :
+    ∃ c0, collectFees s sender f = .ok c0 ∧ c'.pools = c0.pools ∧ c'.vaults = c0.vaults ∧
+      (∀ i, c'.bal i = c0.bal i + (if a = i then x else 0)) ∧
+      c'.dao = c0.dao ∧ c'.trh = c0.trh ∧ c'.rate = c0.rate ∧ c'.active = c0.active ∧
+      c'.daoSet = c0.daoSet ∧ c'.routes = c0.routes := by
+  cases f with
+  | vaultFactory lim =>
+    simp only [collectFees] at h ⊢
+    injection h with h; subst h
+    refine ⟨_, rfl, rfl, rfl, fun i => ?_, rfl, rfl, rfl, rfl, rfl, rfl⟩
+    simp only
+    rw [collectVaults_apply, collectVaults_apply, add_apply]; omega
+  | poolFactory lim =>
+    simp only [collectFees] at h ⊢
+    injection h with h; subst h
+    refine ⟨_, rfl, rfl, rfl, fun i => ?_, rfl, rfl, rfl, rfl, rfl, rfl⟩
+    simp only
+    rw [collectPools_apply, collectPools_apply, add_apply]; omega
+  | wrongFactory => simp only [collectFees] at h; cases h
+  | onePool k =>
+    simp only [collectFees] at h ⊢
+    cases hk : s.pools[k]? with
+    | none => rw [hk] at h; cases h
+    | some p =>
+      rw [hk] at h; simp only at h ⊢
+      injection h with h; subst h
+      refine ⟨_, rfl, rfl, rfl, fun i => ?_, rfl, rfl, rfl, rfl, rfl, rfl⟩
+      simp only
+      rw [add_apply, add_apply, add_apply, add_apply, add_apply]; omega
+  | oneVault k =>
+    simp only [collectFees] at h ⊢
+    cases hk : s.vaults[k]? with
+    | none => rw [hk] at h; cases h
+    | some v =>
+      rw [hk] at h; simp only at h ⊢
+      injection h with h; subst h
+      refine ⟨_, rfl, rfl, rfl, fun i => ?_, rfl, rfl, rfl, rfl, rfl, rfl⟩
+      simp only
+      rw [add_apply, add_apply, add_apply]; omega
+
 end WW.Collector
 
 /-! ### the joint machine projects onto the distributor's ledger machine -/
@@ -505,9 +551,11 @@ theorem ofCode_ok {r : Nat} {s s' : St} (h : ofCode r s = .ok s') : s' = s := by
 /-- every successful operation of the joint machine — including the directly sent `CollectFees` /
     `AggregateFees` and everything that happens on pairs, vaults, the router and the lair — either
     leaves the distributor's ledger state untouched or is one operation of `Distributor.step` -/
-theorem step_projects {cfg : Cfg} {s s' : St} {op : Op} (h : step cfg s op = .ok s') :
+theorem step_projects_base {cfg : Cfg} {s s' : St} {op : Op} (hb : isCoins op = false)
+    (h : step cfg s op = .ok s') :
     s'.d = s.d ∨ ∃ dop, Distributor.step cfg.d s.d dop = .ok s'.d := by
   cases op with
+  | coins payer asset amount op => cases hb
   | newEpoch now router acc =>
     right
     simp only [step] at h
@@ -647,6 +695,153 @@ theorem step_projects {cfg : Cfg} {s s' : St} {op : Op} (h : step cfg s op = .ok
       obtain ⟨c', inn, sw⟩ := pr
       rw [hc] at h; simp only at h; injection h with h; subst h; rfl
 
+/-- the bank's part of a message with coins attached leaves the distributor's ledger state untouched or is
+    a gift to the distributor -/
+theorem pay_projects {cfg : Cfg} {s s1 : St} {payer asset amount : Nat} {t : Target}
+    (h : pay cfg s payer asset amount t = .ok s1) :
+    s1.d = s.d ∨ s1.d = Distributor.gift s.d asset amount := by
+  cases t with
+  | nobody => cases h
+  | collector =>
+    simp only [pay] at h
+    split at h
+    · cases h
+    · injection h with h; subst h; exact Or.inl rfl
+  | distributor =>
+    simp only [pay] at h
+    split at h
+    · cases h
+    · injection h with h; subst h; exact Or.inr rfl
+  | router =>
+    simp only [pay] at h
+    split at h
+    · cases h
+    · injection h with h; subst h; exact Or.inl rfl
+  | lair =>
+    simp only [pay] at h
+    split at h
+    · cases h
+    · injection h with h; subst h; exact Or.inl rfl
+
+theorem pay_collector_ok {cfg : Cfg} {s s1 : St} {payer a x : Nat} (h : pay cfg s payer a x .collector = .ok s1) :
+    s1 = { s with ub := ubAfterPay cfg s payer a x, c := { s.c with bal := Collector.add s.c.bal a x } } := by
+  simp only [pay] at h
+  split at h
+  · cases h
+  · injection h with h; exact h.symm
+
+theorem pay_distributor_ok {cfg : Cfg} {s s1 : St} {payer a x : Nat} (h : pay cfg s payer a x .distributor = .ok s1) :
+    s1 = { s with ub := ubAfterPay cfg s payer a x, d := Distributor.gift s.d a x } := by
+  simp only [pay] at h
+  split at h
+  · cases h
+  · injection h with h; exact h.symm
+
+theorem dreach_append (cfg : Distributor.Cfg) : ∀ (xs ys : List Distributor.Op) (s : Distributor.St),
+    Distributor.reach cfg s (xs ++ ys) = Distributor.reach cfg (Distributor.reach cfg s xs) ys := by
+  intro xs
+  induction xs with
+  | nil => intro ys s; rfl
+  | cons x xs ih =>
+    intro ys s
+    simp only [List.cons_append, Distributor.reach]
+    cases Distributor.step cfg s x with
+    | ok s' => exact ih ys s'
+    | err => exact ih ys s
+    | panic => exact ih ys s
+
+/-- every successful operation of the joint machine, WITH OR WITHOUT COINS ATTACHED, acts on the distributor's
+    ledger state as a (possibly empty) history of `Distributor.step` operations: attached coins are a gift to
+    the distributor (or do not touch it at all), the rest is `step_projects_base` -/
+theorem step_projects {cfg : Cfg} : ∀ {op : Op} {s s' : St}, step cfg s op = .ok s' →
+    ∃ dops, s'.d = Distributor.reach cfg.d s.d dops := by
+  intro op
+  induction op with
+  | coins payer asset amount op ih =>
+    intro s s' h
+    simp only [step] at h
+    cases hp : pay cfg s payer asset amount (target op) with
+    | err => rw [hp] at h; cases h
+    | panic => rw [hp] at h; cases h
+    | ok s1 =>
+      rw [hp] at h; simp only at h
+      obtain ⟨dops, hd⟩ := ih h
+      cases pay_projects hp with
+      | inl same => exact ⟨dops, by rw [hd, same]⟩
+      | inr gift => exact ⟨.gift asset amount :: dops, by rw [hd, gift]; rfl⟩
+  | _ =>
+    intro s s' h
+    cases step_projects_base rfl h with
+    | inl same => exact ⟨[], by rw [same]; rfl⟩
+    | inr hstep =>
+      obtain ⟨dop, hdop⟩ := hstep
+      exact ⟨[dop], by simp only [Distributor.reach, hdop]⟩
+
+/-- the distributor's reply from a state that was first given `x` of asset `a`: the same epochs, every
+    balance larger by the gift -/
+theorem receiveEpoch_gift {d d' : Distributor.St} {a x id start : Nat} {inflow : Option Nat}
+    (h : Distributor.receiveEpoch (Distributor.gift d a x) id start inflow = .ok d') :
+    ∃ d0, Distributor.receiveEpoch d id start inflow = .ok d0 ∧ d'.epochs = d0.epochs ∧ d'.last = d0.last ∧
+      d'.grace = d0.grace ∧ d'.dist = d0.dist ∧ ∀ i, d'.bal i = d0.bal i + Distributor.sel a i x := by
+  obtain ⟨hg, tot, hagg, hd'⟩ := Distributor.receiveEpoch_spec h
+  subst hd'
+  have hagg' : Distributor.agg (Distributor.inflowLedger d.dist inflow)
+      (Distributor.takeOut (d.grace - 1) d.epochs).2 = .ok tot := hagg
+  have hg' : ¬ d.grace = 0 := by
+    have : 1 ≤ d.grace := hg
+    omega
+  refine ⟨{ d with epochs := { id := id, start := start, total := tot, avail := tot, claimed := [] } ::
+                              (Distributor.takeOut (d.grace - 1) d.epochs).1,
+                     bal := Distributor.addAt d.bal d.dist (Distributor.amt inflow) },
+    ?_, rfl, rfl, rfl, rfl, fun i => ?_⟩
+  · unfold Distributor.receiveEpoch
+    rw [if_neg hg']
+    simp only
+    rw [hagg']
+  · simp only [Distributor.gift]
+    rw [Distributor.addAt_apply, Distributor.addAt_apply, Distributor.addAt_apply]
+    omega
+
+/-- STRAY COINS on `NewEpoch` (they land on the distributor, the contract the message is addressed to): the
+    whole pipeline run — collection, aggregation, take rate, transfer, the new epoch — is the one of the
+    plain `NewEpoch`; only the distributor's balance of the attached asset is larger by the gift -/
+theorem newEpoch_gift {cfg : Cfg} {s s' : St} {ub' : Nat → Nat → Nat} {a x now : Nat}
+    {router : Nat → Nat → Nat → Nat} {acc : Nat → Nat → Nat} {o : Collector.Out}
+    (h : newEpoch cfg { s with ub := ub', d := Distributor.gift s.d a x } now router acc = .ok (s', o)) :
+    ∃ s0, newEpoch cfg s now router acc = .ok (s0, o) ∧ s'.c = s0.c ∧ s'.daoBal = s0.daoBal ∧
+      s'.d.epochs = s0.d.epochs ∧ s'.d.last = s0.d.last ∧ s'.d.grace = s0.d.grace ∧ s'.d.dist = s0.d.dist ∧
+      (∀ i, s'.d.bal i = s0.d.bal i + Distributor.sel a i x) ∧
+      s'.ub = ub' ∧ s'.view = s0.view ∧ s'.rts = s0.rts ∧ s'.xb = s0.xb := by
+  unfold newEpoch at h ⊢
+  have e1 : Distributor.nextEpoch cfg.d (Distributor.gift s.d a x) now = Distributor.nextEpoch cfg.d s.d now := rfl
+  simp only at h
+  rw [e1] at h
+  cases hn : Distributor.nextEpoch cfg.d s.d now with
+  | err => rw [hn] at h; cases h
+  | panic => rw [hn] at h; cases h
+  | ok pr =>
+    obtain ⟨id, start⟩ := pr
+    rw [hn] at h; simp only at h ⊢
+    have e2 : Collector.forwardFees (ccfg cfg { s with ub := ub', d := Distributor.gift s.d a x })
+        (cview { s with ub := ub', d := Distributor.gift s.d a x }) cfg.c.distributor id router acc =
+        Collector.forwardFees (ccfg cfg s) (cview s) cfg.c.distributor id router acc := rfl
+    rw [e2] at h
+    cases hf : Collector.forwardFees (ccfg cfg s) (cview s) cfg.c.distributor id router acc with
+    | err => rw [hf] at h; cases h
+    | panic => rw [hf] at h; cases h
+    | ok o1 =>
+      rw [hf] at h; simp only at h ⊢
+      cases hr : Distributor.receiveEpoch (Distributor.gift s.d a x) id start o1.inflow with
+      | err => rw [hr] at h; cases h
+      | panic => rw [hr] at h; cases h
+      | ok d' =>
+        rw [hr] at h; simp only at h
+        injection h with h; injection h with h1 h2
+        subst h1; subst h2
+        obtain ⟨d0, hd0, he, hl, hgr, hdi, hb⟩ := receiveEpoch_gift hr
+        rw [hd0]
+        exact ⟨_, rfl, rfl, rfl, he, hl, hgr, hdi, hb, rfl, rfl, rfl, rfl⟩
+
 /-- the distributor component of every history of the joint machine is reached by a history of the
     distributor's own machine (the one the C09 theorems quantify over) -/
 theorem reach_projects (cfg : Cfg) : ∀ (ops : List Op) (s : St),
@@ -662,10 +857,7 @@ theorem reach_projects (cfg : Cfg) : ∀ (ops : List Op) (s : St),
     | ok s' =>
       simp only [reach, hs]
       obtain ⟨dops, hd⟩ := ih s'
-      cases step_projects hs with
-      | inl same => exact ⟨dops, by rw [hd, same]⟩
-      | inr hstep =>
-        obtain ⟨dop, hdop⟩ := hstep
-        exact ⟨dop :: dops, by rw [hd]; simp only [Distributor.reach, hdop]⟩
+      obtain ⟨d1, h1⟩ := step_projects hs
+      exact ⟨d1 ++ dops, by rw [hd, h1, dreach_append]⟩
 
 end WW.Feeflow
